@@ -299,6 +299,8 @@ def c12(facts, tier):
     rep.floor("R-GUARDDEP", "tier-guarded float->int casts", n, 8)
     n = r_contra.run_wrap(facts, rep, files if tier == "quick" else None)
     rep.floor("R-CONTRA(wrap)", "reduction call sites inspected", n, 8)
+    n = r_contra.run_carry(facts, rep, lambda p: p.startswith("ckks_encoder::CKKSEncoder::encode_internal"))
+    rep.floor("R-CARRY", "per-element loops with outer buffers written inside", n, 6)
     eng = r_guard.GuardEngine(facts, track_scalars=True)
     rows = []
     for p in sorted(facts.methods_of("ckks_encoder::CKKSEncoder", pub_only=True)):
